@@ -7,6 +7,8 @@ import (
 	"os"
 	"path/filepath"
 	"runtime/debug"
+
+	logging "github.com/ipfs/go-log/v2"
 	"runtime/pprof"
 	"time"
 )
@@ -207,6 +209,7 @@ func Main(sim string, run RunFunc) {
 	)
 	cpuprof := flag.String("cpuprofile", "", "write cpu profile")
 	flag.Parse()
+	logging.SetAllLoggers(logging.LevelFatal)
 	SetKnown(*known)
 	if *cpuprof != "" {
 		f, _ := os.Create(*cpuprof)
